@@ -263,8 +263,8 @@ class Engine:
             self.memo[key] = (d, self.pos, self._epoch_at(self.pos))
             self.keep.append(expr)
             return d
-        if self.cut_depth is not None and len(self.trail) >= self.cut_depth:
-            raise Cut()
+        if self.cut_depth is not None and sum(1 for ent in self.trail if ent[3] == "fork") >= self.cut_depth:
+            raise Cut()          # (the cut depth counts genuine forks, not assumptions / definitions)
         self._push(True, True, expr, "fork")
         if not t_from_model:
             self.model = model_t
